@@ -28,7 +28,7 @@ FLOORS = {
               'kind:number-beyond': 60, 'kind:number-below': 60, 'kind:text': 20, 'kind:logical': 10,
               'kind:error': 10, 'kind:number-to-text': 30, 'kind:text-to-number': 10, 'not_implemented_cases': 30,
               'exception_cases': 30, 'other_reported_cells_checked': 100, 'tol:None': 100, 'tol:0.001': 100,
-              'outputs:chosen': 100, 'outputs:all': 100, 'prelude:noop-write': 40, 'prelude:read-input': 40, 'prelude:list-formula-cells': 40, 'real_book_validations': 25,
+              'outputs:chosen': 100, 'outputs:all': 100, 'outputs:sheet': 30, 'unevaluable_cell_below_chosen_outputs': 30, 'unevaluable_cell_below_the_formulas_of_another_sheet': 10, 'prelude:noop-write': 40, 'prelude:read-input': 40, 'prelude:list-formula-cells': 40, 'real_book_validations': 25,
               'workbooks_with_iterative_calculation_on': 30, 'pristine_process_workbooks': 16, 'two_unevaluable_cells_cases': 30},
     'thorough': {'validate_calls': 12000, 'alterations': 8000, 'kind:logical': 300, 'kind:error': 300,
                  'not_implemented_cases': 600, 'exception_cases': 600},
@@ -114,11 +114,12 @@ def prelude(comp, spec, meta, how, pick):
         quiet(comp.set_value, addr, value)
 
 
-def one_validate(ctx, spec, meta, stored, outputs, tol, altered, kind, new_value, truth, how='none', pick=0):
+def one_validate(ctx, spec, meta, stored, outputs, tol, altered, kind, new_value, truth, how='none', pick=0,
+                 sheet=None):
     """run validate_calcs on the workbook with ``stored`` results; check the report"""
     from pycel import ExcelCompiler
     case = {'spec': spec, 'meta': meta, 'outputs': outputs, 'tol': tol, 'altered': altered, 'kind': kind,
-            'new_value': new_value, 'prelude': how, 'pick': pick}
+            'new_value': new_value, 'prelude': how, 'pick': pick, 'sheet': sheet}
     path = os.path.join(ctx.tmpdir, 'c12.xlsx')
     wb.write_xlsx(spec, path, stored)
     comp = ExcelCompiler(filename=path)
@@ -133,6 +134,8 @@ def one_validate(ctx, spec, meta, stored, outputs, tol, altered, kind, new_value
     kw = {}
     if outputs is not None:
         kw['output_addrs'] = list(outputs)
+    if sheet is not None:
+        kw['sheet'] = sheet          # the outputs are the formula cells of this sheet
     if tol is not None:
         kw['tolerance'] = tol
     try:
@@ -144,7 +147,7 @@ def one_validate(ctx, spec, meta, stored, outputs, tol, altered, kind, new_value
         return
     ctx.count('validate_calls')
     ctx.count(f'tol:{tol}')
-    ctx.count('outputs:' + ('all' if outputs is None else 'chosen'))
+    ctx.count('outputs:' + ('sheet' if sheet is not None else 'all' if outputs is None else 'chosen'))
     ctx.case((repr(spec['sheets']), repr(spec['arrays']), altered, kind, tol, repr(outputs)),
              nontrivial=altered is not None)
     other = {k: v for k, v in report.items() if k != 'mismatch'}
@@ -206,7 +209,7 @@ def one_validate(ctx, spec, meta, stored, outputs, tol, altered, kind, new_value
             return
 
 
-def one_unevaluable(ctx, spec, meta, stored, cell, kind, second=None):
+def one_unevaluable(ctx, spec, meta, stored, cell, kind, second=None, sheet=None, outputs=None):
     from pycel import ExcelCompiler
     faulty = dict(spec, sheets=[[s, dict(c)] for s, c in spec['sheets']])
     for x in [cell] + ([second] if second else []):
@@ -215,12 +218,17 @@ def one_unevaluable(ctx, spec, meta, stored, cell, kind, second=None):
         dict(faulty['sheets'])[s][c] = f'=NOSUCH({body})' if kind == 'nosuch' else f'=FAILK("v",0,{body})'
     s, c = cell.rsplit('!', 1)
     case = {'spec': faulty, 'meta': meta, 'cell': cell, 'kind': kind, 'unevaluable': True, 'stored': None,
-            'second': second}
+            'second': second, 'sheet': sheet, 'outputs': outputs}
     path = os.path.join(ctx.tmpdir, 'c12u.xlsx')
     wb.write_xlsx(faulty, path, stored)
     comp = ExcelCompiler(filename=path, plugins='vp.plugins')
     try:
-        report = quiet(comp.validate_calcs)
+        if sheet is not None:
+            ctx.count('unevaluable_cell_below_the_formulas_of_another_sheet')
+        if outputs is not None:
+            ctx.count('unevaluable_cell_below_chosen_outputs')
+        report = quiet(comp.validate_calcs, **({'sheet': sheet} if sheet is not None else {}),
+                       **({'output_addrs': list(outputs)} if outputs is not None else {}))
     except Exception as exc:
         if not wb.raised_outside_harness(exc):
             raise
@@ -268,7 +276,15 @@ def one_workbook(ctx, rng, spec, meta, n_alter):
                                                                                  list(stored.items())[:8]}})
     for _ in range(n_alter):
         outputs = None if rng.random() < 0.5 else rng.sample(formulas, min(len(formulas), rng.randint(1, 3)))
-        pool = sorted(reachable(meta, outputs if outputs is not None else formulas))
+        sheet, roots = None, outputs if outputs is not None else formulas
+        sheets_with_formulas = sorted({a.rsplit('!', 1)[0] for a in formulas})
+        if len(sheets_with_formulas) > 1 and rng.random() < 0.4:
+            # the formula cells of one sheet as the outputs: what they read on other sheets is reachable from them
+            outputs, sheet = None, rng.choice(sheets_with_formulas)
+            roots = [a for a in formulas if a.rsplit('!', 1)[0] == sheet]
+        pool = sorted(reachable(meta, roots))
+        if sheet is not None and any(a.rsplit('!', 1)[0] != sheet for a in pool if a in stored) and rng.random() < 0.7:
+            pool = [a for a in pool if a.rsplit('!', 1)[0] != sheet]
         pool = [a for a in pool if a in stored]
         if not pool:
             continue
@@ -280,10 +296,21 @@ def one_workbook(ctx, rng, spec, meta, n_alter):
         kind = rng.choice(kinds)
         new = alter(rng, stored[cell], kind, tol)
         one_validate(ctx, spec, meta, dict(stored, **{cell: new}), outputs, tol, cell, kind, new, stored[cell],
-                     how=rng.choice(PRELUDES), pick=rng.randrange(1000))
+                     how=rng.choice(PRELUDES), pick=rng.randrange(1000), sheet=sheet)
     plain = [a for a in formulas if a not in wb.array_members(spec)]
     if plain:
         one_unevaluable(ctx, spec, meta, stored, rng.choice(plain), rng.choice(['nosuch', 'failk']))
+        # ... and a cell that the formulas of another sheet read, validated with that sheet's formulas as the outputs
+        below = [(a, d.rsplit('!', 1)[0]) for a in plain for d in sorted(wbgen.dependants(meta, a))
+                 if d in meta['formulas'] and d.rsplit('!', 1)[0] != a.rsplit('!', 1)[0]]
+        if below:
+            a, sh = rng.choice(below)
+            one_unevaluable(ctx, spec, meta, stored, a, rng.choice(['nosuch', 'failk']), sheet=sh)
+        # ... and a cell reached only from a chosen output that reads it (and fails with it)
+        read = [(a, d) for a in plain for d in sorted(wbgen.dependants(meta, a)) if d in meta['formulas'] and d in plain]
+        if read:
+            a, d = rng.choice(read)
+            one_unevaluable(ctx, spec, meta, stored, a, rng.choice(['nosuch', 'failk']), outputs=[d])
     if len(plain) >= 2 and rng.random() < 0.5:
         # two cells that fail for the same reason (the same unknown function, the same plugin)
         a, b = rng.sample(plain, 2)
@@ -404,7 +431,8 @@ def replay(ctx, case):
         path = os.path.join(ctx.tmpdir, 'c12u.xlsx')
         wb.write_xlsx(spec, path, None)
         comp = ExcelCompiler(filename=path, plugins='vp.plugins')
-        report = quiet(comp.validate_calcs)
+        report = quiet(comp.validate_calcs, **({'sheet': case['sheet']} if case.get('sheet') else {}),
+                       **({'output_addrs': case['outputs']} if case.get('outputs') else {}))
         section = 'not-implemented or exceptions'
         listed = [e[0] for sec in ('not-implemented', 'exceptions')
                   for entries in report.get(sec, {}).values() for e in entries]
@@ -423,4 +451,5 @@ def replay(ctx, case):
     else:
         truth = None
     one_validate(ctx, spec, meta, stored, case['outputs'], case['tol'], case['altered'], case['kind'],
-                 case['new_value'], truth, how=case.get('prelude', 'none'), pick=case.get('pick', 0))
+                 case['new_value'], truth, how=case.get('prelude', 'none'), pick=case.get('pick', 0),
+                 sheet=case.get('sheet'))
